@@ -10,6 +10,7 @@ Variable Sg : sigma.
 Definition tc_new_call (g : ctx) (shadow : option name) (pty : option sty) (x : name)
            (fn : string) (args : list name) (o : option sty) (k : form) : tcr form :=
   let body := FCall fn args o in
+  tdo _ <- guard (negb (is_provider x shadow)) "you cannot assign self to a new channel";
   let reused := ctx_has g (ident x) in
   let body_fn := free_names body in
   tdo _ <- guard (negb (negb reused && name_in_names x body_fn)) "cannot use the new name in the spawned process";
@@ -21,6 +22,14 @@ Definition tc_new_call (g : ctx) (shadow : option name) (pty : option sty) (x : 
   | None => TErr "function is undefined"
   | Some sg =>
     tdo fty <- unfold_opt D (fs_type sg);
+    tdo _ <- (match nty x with
+              | None => TOk tt
+              | Some xt =>
+                tdo xt1 <- lift (add_missing D xt);
+                tdo _ <- guard (check_wf D xt1) "invalid type for the new name";
+                tdo e <- equal_opt D (Some xt1) fty;
+                if e then TOk tt else match fty with Some _ => TErr "annotation differs from the type the function provides" | None => TPanic "nil in message" end
+              end);
     tdo _ <- indep_all (map snd gl) fty;
     tdo body' <- tc_form D Sg gl (Some x) fty body;
     let gr1 := aset (ident x) fty gr in
@@ -32,6 +41,7 @@ Definition tc_new_call (g : ctx) (shadow : option name) (pty : option sty) (x : 
   end.
 
 Definition tc_new_ax (g : ctx) (shadow : option name) (pty : option sty) (x : name) (body k : form) : tcr form :=
+  tdo _ <- guard (negb (is_provider x shadow)) "you cannot assign self to a new channel";
   let reused := ctx_has g (ident x) in
   let body_fn := free_names body in
   tdo _ <- guard (negb (negb reused && name_in_names x body_fn)) "cannot use the new name in the spawned process";
@@ -71,6 +81,7 @@ Lemma tc_brsR_cons g bs seen l pay k r :
      match find_br l bs with
      | None => TErr "branch does not match the type"
      | Some bt =>
+       tdo _ <- guard (negb (ctx_has g (ident pay))) "variable name already defined";
        tdo bt' <- unfold_opt D (Some bt);
        let pay' := set_nty pay bt' in
        tdo _ <- check_pols [pay'];
@@ -86,6 +97,7 @@ Lemma tc_brsL_cons g sh pty bs seen l pay k r :
      match find_br l bs with
      | None => TErr "case does not match the type"
      | Some bt =>
+       tdo _ <- guard (negb (is_provider pay sh)) "you cannot assign self to a new channel";
        tdo _ <- guard (negb (ctx_has g (ident pay))) "variable name already defined";
        let g1 := aset (ident pay) (Some bt) g in
        tdo bt' <- unfold_opt D (Some bt);
